@@ -186,8 +186,8 @@ def array_dcg(scores: NDArray[np.number], discount: Discount = np.log2):
     scores = np.nan_to_num(scores)
     ranks = np.arange(1, len(scores) + 1)
     disc = discount(ranks)
-    np.maximum(disc, 1, out=disc)
-    np.reciprocal(disc, out=disc)
+    disc = np.maximum(disc, 1)
+    disc = np.reciprocal(disc)
     return np.dot(scores, disc)
 
 
